@@ -106,6 +106,15 @@ def octets_default_name_clash(t, where, resolve):
     return len(names) != len(set(names))
 
 
+def length_wraps_before_check(t, where, resolve):
+    """Variable-size OCTET STRING / SEQUENCE OF with a uint8_t length member
+    (maximum <= 255) whose length field can express a value above 255: the
+    decoder adds the minimum in uint8_t, the sum wraps, the range check passes."""
+    if where != 'type' or t.kind not in ('octets', 'seqof') or t.lo == t.hi or t.hi > 255:
+        return False
+    return t.lo + (1 << (t.hi - t.lo).bit_length()) - 1 > 255
+
+
 def T_canon(name):
     import re
     return re.sub(r'[^a-zA-Z0-9]', '_', name)
@@ -118,6 +127,7 @@ REGIONS = {
     'enum-default-hyphen': enum_default_hyphen,
     'octets-fixed-default': octets_fixed_default,
     'octets-default-name-clash': octets_default_name_clash,
+    'length-wraps-before-check': length_wraps_before_check,
     'size-above-64k': size_above_64k,
     'named-bits-alignment': named_bits_alignment,
     'bits-default-invalid-c': bits_default,
